@@ -29,6 +29,8 @@ from .core import fhex, unhex, sha
 
 def _draw_n(rng, tier):
     r = rng.random()
+    if r < 0.06:
+        return rng.randint(3, 7)
     if r < 0.55:
         return rng.randint(8, 24)
     if r < 0.93 or tier == 'quick':
@@ -77,13 +79,28 @@ def gen_plan(rng, tier='quick', traces=None):
         last_n = len(pts)
         lay = rng.choice(layouts_enabled)
         if lay == 'int64' and not worlds.integral(pts):
-            lay = rng.choice([l for l in layouts_enabled if l != 'int64'] or ['C'])
+            # integer-valued version of the curve (cache sizes / counts): x -> distinct integers, y -> rounded
+            sy = rng.choice([1.0, 10.0, 100.0, 1000.0])
+            top = max(abs(p[1]) for p in pts) or 1.0
+            if top * sy > 2 ** 19:
+                sy = 2 ** 19 / top
+            q = []
+            lastx = None
+            for k, (x, y) in enumerate(pts):
+                xi = float(round(x)) if abs(x) < 2 ** 19 else float(k)
+                if lastx is not None and xi <= lastx:
+                    xi = lastx + 1.0
+                q.append([xi, float(round(y * sy))])
+                lastx = xi
+            pts = q
+            if not worlds.integral(pts):
+                lay = rng.choice([l for l in layouts_enabled if l != 'int64'] or ['C'])
         pool.append({'kind': 'curve', 'family': fam, 'points': [[fhex(x), fhex(y)] for x, y in pts],
                      'layout': lay, 'salt': rng.randrange(1 << 30), 'sibling': sib})
     for ci in range(ncurves):
         n = len(pool[ci]['points'])
         if n >= 5 and rng.random() < 0.8:
-            k = rng.randint(1, min(7, n - 2))
+            k = rng.randint(1, min(7, n - 2)) if rng.random() < 0.95 else 0
             vals = sorted(rng.sample(range(1, n - 1), k))
             pool.append({'kind': 'idx', 'curve': ci, 'values': vals, 'layout': rng.choice(['C', 'C', 'view', 'list']),
                          'salt': rng.randrange(1 << 30)})
